@@ -26,7 +26,6 @@ still checked (fed the integer image of the input their counterpart receives in 
 import copy
 import hashlib
 import json
-import math
 
 import torch
 import torch.nn as nn
@@ -51,7 +50,11 @@ ASSUMPTIONS = ['"random in-range inputs" are decided on a seeded witness batch i
                'PACTAct.scale (D22) is added to the bound, not reported',
                'MAUPITI activations are offset-signed: integer + 2^(p-1) is the unsigned level, p the precision of the quantizer that produced the activation',
                'range of the scaled bias is checked on add_bias (bias x scale); the MAUPITI zero point (bias + offset terms) is not range-checked',
-               'final-layer tolerance: own scale approximation + stabiliser share + 1e-3 relative + 2 units of s_x s_w']
+               'final-layer tolerance: own scale approximation + stabiliser share + 1e-3 relative + 2 units of s_x s_w',
+               'grammar programs in which a BatchNorm would see a 1x1 map are excluded: MPS() itself cannot convert them (BN in training mode on a single value)',
+               'signatures: a violation is signed kind / back-end / structural features of the layer (dilated axis, depthwise, asymmetric or "valid" padding, no bias, in != out '
+               'precision, final layer); "no-bias" alone is used only for UnboundLocalError(int_bias) on a layer whose bias is None; "asymmetric-padding" alone only when the observed '
+               'shape is exactly the one obtained by padding all four sides with padding[0]']
 
 MATCH_OPTS = [('match', 24, 24), ('match', 16, 24), ('match', 12, 12)]
 BACKENDS = MATCH_OPTS + [('maupiti', None, None)]
@@ -60,11 +63,15 @@ BITS = (2, 4, 8)
 
 
 def bounds(tier):
-    return {'quick': {'G_depth': 2, 'core_programs': len(_core_programs()), 'hand_programs': len(_hand_programs()), 'bits': 'complete {2,4,8}^2 on core and hand programs',
-                      'mixed_activation_programs': len(_mixed_programs('quick')), 'backend_options': len(BACKENDS), 'calibrations': CALIBS, 'weight_draws': 1},
-            'thorough': {'G_depth': 3, 'core_programs': len(_core_programs()), 'hand_programs': len(_hand_programs()), 'bits': 'complete {2,4,8}^2 on core, hand and depth-2 '
-                         'programs, 3 pairs on depth-3 programs', 'mixed_activation_programs': len(_mixed_programs('thorough')), 'backend_options': len(BACKENDS),
-                         'calibrations': CALIBS, 'weight_draws': 2}}[tier]
+    return {'quick': {'G_mps_sequential_depth': 'none beyond the core list (1-3 stages)', 'core_programs': len(_core_programs()), 'hand_programs': len(_hand_programs()),
+                      'bits': 'complete {2,4,8}^2 on core and hand programs', 'mixed_activation_programs': len(_mixed_programs('quick')),
+                      'mixed_activation_patterns': '(lo,hi) in {(2,8),(4,8),(2,4)} alternating from lo / from hi, w=4', 'backend_options': len(BACKENDS),
+                      'calibrations': CALIBS, 'weight_draws': 1, 'witness_batch': 4},
+            'thorough': {'G_mps_sequential_depth': 3, 'core_programs': len(_core_programs()), 'hand_programs': len(_hand_programs()),
+                         'bits': 'complete {2,4,8}^2 on core, hand and all sequential G_mps programs of depth <= 2 (+ option deviations), 3 pairs on depth-3 programs',
+                         'mixed_activation_programs': len(_mixed_programs('thorough')),
+                         'mixed_activation_patterns': '(lo,hi) in {(2,8),(4,8),(2,4)} alternating from lo / from hi, w in {2,4,8}', 'backend_options': len(BACKENDS),
+                         'calibrations': CALIBS, 'weight_draws': '2 on core and hand programs, 1 elsewhere', 'witness_batch': 4}}[tier]
 
 
 # ----------------------------------------------------------------------------------------------
@@ -120,12 +127,27 @@ def _sequential(p):
     return all(s['op'] in ('conv', 'pool') for s in p['stages'])
 
 
+def _bn_on_single_pixel(p):
+    """MPS() itself cannot convert a network whose BatchNorm sees a 1x1 map (its shape propagation runs BN in training mode on a batch of one):
+    such programs are outside the domain of C14 (nothing to integerize)"""
+    size = p['size']
+    for s in p['stages']:
+        if s['op'] == 'pool':
+            size //= 2
+        else:
+            k = s.get('k', 3)
+            size = (size + 2 * s.get('p', k // 2) - k) // s.get('s', 1) + 1
+            if s.get('bn') and size <= 1:
+                return True
+    return False
+
+
 def _grammar_programs(depth):
     out = []
     for p in GM.gen(depth, with_opts=True):
         if not _sequential(p) or p.get('head_bn'):
             continue
-        if all(s['op'] == 'pool' for s in p['stages']):
+        if all(s['op'] == 'pool' for s in p['stages']) or _bn_on_single_pixel(p):
             continue
         out.append(p)
     return out
@@ -147,10 +169,6 @@ def _mixed_programs(tier):
             _P([dict(c), dict(c), dict(c)], 'flatlin'),
         ]
     return progs
-
-
-def _pkey(p):
-    return json.dumps(p, sort_keys=True)
 
 
 def cases(tier, seed):
@@ -445,6 +463,16 @@ def check_stored(L, F, backend, opts, feat):
     sc = L.scale.detach()
     if not _integral(sc):
         bad.append(('not-integral', 'scale', 'scale is not integral'))
+    elif float(sc.min()) >= 0 and float(sc.max()) == 2 ** (sb - 1):
+        # exactly the (inclusive) upper end of the binary search: one more than the largest signed scale_bit-bit value
+        _, _, s_w, s_x = _int_weights(F)
+        tgt = s_w * s_x / (float(F.out_quantizer.scale) if not feat['final'] else 1.0)
+        hit = sc.view(-1).double() == 2 ** (sb - 1)
+        # a target >= 2^(scale_bit-1) cannot be represented with any shift >= 0: the search saturates silently (distinct signature)
+        unrep = bool((tgt[hit] >= 2 ** (sb - 1)).any())
+        bad.append(('stored-out-of-range', 'scale-equals-upper-bound/target-not-representable' if unrep else 'scale-equals-upper-bound',
+                    f'scale={sc.view(-1).tolist()} shift={L.shift.view(-1).tolist()} for targets s_w s_x/s_y={tgt.tolist()}: a channel gets scale == 2^(scale_bit-1) = {2 ** (sb - 1)} '
+                    f'(scale_bit={sb}), not below it' + (' (the target itself exceeds what scale_bit bits can represent; the search saturates silently)' if unrep else '')))
     elif float(sc.min()) < 0 or float(sc.max()) >= 2 ** (sb - 1):
         bad.append(('stored-out-of-range', 'scale', f'scale spans [{float(sc.min())}, {float(sc.max())}] but scale_bit={sb} declares values below {2 ** (sb - 1)}'))
     sh = L.shift.detach()
@@ -704,7 +732,11 @@ def run_config(exp, x, opt, res, add, stats):
         L, F, feat = layers[n], fqm[n], feats[n]
         res['evals'] += 1
         for kind, what, msg in check_stored(L, F, backend, opt, feat):
-            add(kind, f'{kind}/{backend}/{what}/{_feat_sig(feat)}', f'{n}: {msg}')
+            if what in ('scale', 'shift') or what.startswith('scale-equals-upper-bound'):
+                # scale / shift depend on the three step sizes and the back-end options only, not on the structure of the layer
+                add(kind, f'{kind}/{what}' if what.startswith('scale-equals-upper-bound') else f'{kind}/{backend}/{what}', f'{n}: {msg}')
+            else:
+                add(kind, f'{kind}/{backend}/{what}/{_feat_sig(feat)}', f'{n}: {msg}')
         if n in inputs:
             X_int, Y_int = inputs[n], outputs[n]
         else:
@@ -774,8 +806,9 @@ def run_case(case, seed):
             exp, x = make_fq(prog, a, w, wseed, start)
             calibrate(exp, x, frac)
         except Exception as e:
-            # conversion / export by MPS is not the subject of C14 (C02); such a program is outside the domain
-            res['outcomes'].add(f'mps-conversion-raises:{type(e).__name__}')
+            # conversion / export by MPS is not the subject of C14 (C02 is), but a program of this module that cannot be converted is never dropped silently
+            cur[0] = labels[0]
+            add('mps-conversion-raises', f'mps-conversion-raises/{ssig}', f'MPS() / export() raised {type(e).__name__}: {str(e)[:200]} (program outside the domain of C14: fix the program list)')
             continue
         precs = {n: (f['p_in'], f['p_out']) for n, f in ((n, _features(m)) for n, m in _quant_layers(exp))}
         for o, label in zip(BACKENDS, labels):
